@@ -17,6 +17,9 @@ use std::collections::{BTreeMap, HashSet};
 use std::sync::atomic::{AtomicU64, Ordering};
 use std::sync::Arc;
 
+#[path = "c02sched.rs"]
+mod sched;
+
 #[derive(Clone, Debug)]
 struct Event {
     stamp: u64,
@@ -1019,7 +1022,7 @@ pub fn run(a: &Args) {
     let mut out = Out::new(&a.out);
     let mut rng = Rng::new(a.seed);
     let rt = tokio::runtime::Builder::new_multi_thread().worker_threads(4).enable_all().build().unwrap();
-    rt.block_on(async {
+    let fixed = rt.block_on(async {
         // which routing does the tree have?  (same observation as C03)
         let fixed = {
             let st = new_state(4);
@@ -1062,9 +1065,13 @@ pub fn run(a: &Args) {
                 run_timed_case(&mut out, c).await;
             }
         }
+        fixed
     });
+    drop(rt);
+    // enumerated schedules: a current-thread runtime, request futures polled by hand
+    sched::run(&mut out, fixed, &mut Rng::new(a.seed ^ 0x5C4ED), a.n > 50_000);
     out.extra.insert("audit".into(), serde_json::from_str(r####"{
- "1 entry paths": "CLOSED: every ShardMessage kind that carries a client request is in the concurrent mix (generic incl. EVAL/EVALSHA, fast, pooled, batch get/set) — see C03 api_coverage; EvictExpired is not a client operation (no history event)",
+ "1 entry paths": "CLOSED: every ShardMessage kind that carries a client request is in the concurrent mix (generic incl. EVAL/EVALSHA, fast, pooled, batch get/set) — see C03 api_coverage; EvictExpired is not a client operation (no history event); session 4: the entry path is a quantifier of the M7-level theorem (linearizable_node_entry_paths: ReqV.via cls now c for every frame class of Shards.dispatch)",
  "2 input alphabet": "CLOSED: keys from C03's structured alphabet; values incl. integers / non-integers for INCR; OPEN: only string commands in histories (other types: C01)",
  "3 comparisons at equality": "CLOSED: reads invoked just before / at / just past / far past a deadline",
  "4 configuration": "CLOSED: 1,2,4,8,16 shards; response pool capacity 1..256 / prewarm 0..capacity in the cancellation histories; 2..8 clients",
@@ -1074,7 +1081,7 @@ pub fn run(a: &Args) {
  "8 node-global state": "CLOSED: script introduced by EVAL on one shard, EVALSHA elsewhere; multi-call scripts (session 3): XINCR = GET/+1/SET script judged as an increment in the counter histories, two-key transfer/sum scripts racing plain commands (oracle C02:script-not-atomic:transfer); model: Redis.Prog / linearizable_m7_single_store",
  "9 observations": "CLOSED: every reply (verified WGL + Rust checker), direct reply-matches-request oracle in cancellation histories; fan-outs: every ITEM of MGET/MSET is a single-key op inside the call's interval, every key of multi-key DEL / FLUSHALL is a delete without observable reply (pending op); OPEN: DBSIZE / KEYS / SCAN / RANDOMKEY replies under concurrency are NOT judged (no atomic-snapshot claim is made for fan-outs: C02 is per key)",
  "10 finding absorption": "no listed finding for C02",
- "11 harness fragility": "CLOSED: verified checker made just-in-time (no exponential blow-up on non-linearizable histories); OPEN: schedules are sampled"
+ "11 harness fragility": "CLOSED: verified checker made just-in-time (no exponential blow-up on non-linearizable histories); CLOSED (session 4): ENUMERATED schedules (c02sched.rs) — on a current-thread runtime the request futures are polled by hand, Invoke / Run / Take / Drop = the steps of Model/Actors; all 90 interleavings of 3 operations x at most one abandoned request (before / after the shard ran) x lazy / eager runs for 8 templates over pooled / fast / generic / batch / script paths, pool capacity 1 and 2, on every run (deterministic); OPEN: the multi-thread histories (more clients, longer programs) remain sampled; the enumeration covers 3 (thorough: 4) operations"
 }"####).unwrap());
-    out.finish("case = one concurrent history: 2..8 client tasks (multi-thread tokio runtime, seeded random yields) issue 6..12 single-key string commands per key over 1..3 keys through execute (plain commands and the same commands as Lua scripts via EVAL and via SCRIPT LOAD + EVALSHA) / fast_* / pooled_fast_* / fast_batch_get_pipeline / fast_batch_set_pipeline (batches of 1..4 keys, every item one single-key operation with the call's interval) of a real ShardedActorState with 1, 2, 4, 8 or 16 shards; invocation/response stamped by a global atomic counter. Schedules are SAMPLED (the seed fixes programs and yield patterns, not the interleaving). plus TIMED histories (a key gets a PX / EX deadline; the simulated clock is advanced by hand between phases to just before / at / just past / far past it, with no traffic, traffic to another shard or traffic to the key's own shard in between; then 2..4 clients read the key concurrently through generic GET/EXISTS/MGET, fast, pooled, batched and script (EVAL, EVALSHA) paths, optionally racing a writer; both checkers use a sequential specification with a clock: an operation invoked at virtual time t sees a key iff t < deadline; pattern distribution under timed:*); plus cancellation histories (a slow script keeps one shard busy, pooled requests to it are abandoned by a timeout while queued and stay pending, then 4..8 single-writer clients run > pool-size pooled SET/GET rounds during and after the stall; every reply is also checked directly against its request). distinct by the stamped history text; non-trivial iff two operations on one key overlap in real time and the key is written, or an operation was abandoned");
+    out.finish("case = one concurrent history: 2..8 client tasks (multi-thread tokio runtime, seeded random yields) issue 6..12 single-key string commands per key over 1..3 keys through execute (plain commands and the same commands as Lua scripts via EVAL and via SCRIPT LOAD + EVALSHA) / fast_* / pooled_fast_* / fast_batch_get_pipeline / fast_batch_set_pipeline (batches of 1..4 keys, every item one single-key operation with the call's interval) of a real ShardedActorState with 1, 2, 4, 8 or 16 shards; invocation/response stamped by a global atomic counter. Schedules are SAMPLED (the seed fixes programs and yield patterns, not the interleaving). plus ENUMERATED schedules (class sched: 3-operation templates, every interleaving of invocations and completions x at most one abandoned request x lazy / eager shard runs, request futures polled by hand on a current-thread runtime; 4-operation templates sampled, enumerated in the thorough tier). plus TIMED histories (a key gets a PX / EX deadline; the simulated clock is advanced by hand between phases to just before / at / just past / far past it, with no traffic, traffic to another shard or traffic to the key's own shard in between; then 2..4 clients read the key concurrently through generic GET/EXISTS/MGET, fast, pooled, batched and script (EVAL, EVALSHA) paths, optionally racing a writer; both checkers use a sequential specification with a clock: an operation invoked at virtual time t sees a key iff t < deadline; pattern distribution under timed:*); plus cancellation histories (a slow script keeps one shard busy, pooled requests to it are abandoned by a timeout while queued and stay pending, then 4..8 single-writer clients run > pool-size pooled SET/GET rounds during and after the stall; every reply is also checked directly against its request). distinct by the stamped history text; non-trivial iff two operations on one key overlap in real time and the key is written, or an operation was abandoned");
 }
